@@ -53,11 +53,13 @@ func fatalf(format string, a ...interface{}) {
 }
 
 type xf struct {
-	fset    *token.FileSet
-	rel     string
-	used    bool
-	tmp     int
-	results []bool // stack: does the enclosing function have results
+	fset     *token.FileSet
+	rel      string
+	used     bool
+	tmp      int
+	results  []bool          // stack: does the enclosing function have results
+	external map[string]bool // import names of packages outside the repository module (un-instrumented callers of callbacks)
+	quiet    int             // >0: inside a callback handed to un-instrumented code: no preemption points
 }
 
 func (x *xf) site(pos token.Pos, kind string) ast.Expr {
@@ -115,7 +117,7 @@ func (x *xf) list(l []ast.Stmt) []ast.Stmt {
 			out = append(out, s)
 			continue
 		}
-		if !*noPoint {
+		if !*noPoint && x.quiet == 0 {
 			out = append(out, &ast.ExprStmt{X: x.rt("Point", x.site(s.Pos(), "point"))})
 		}
 		out = append(out, x.stmt(s)...)
@@ -249,6 +251,41 @@ func (x *xf) walk(v reflect.Value) {
 				x.walk(reflect.ValueOf(c))
 			}
 			return
+		case *ast.CallExpr:
+			// a function literal handed to a package outside the repository (sort.Slice, slices.SortFunc, ...) is called
+			// back by un-instrumented code a data-dependent number of times (e.g. a comparator whose call count depends on
+			// map iteration order): it gets no preemption points, so that the point count of a run stays reproducible
+			if sel, ok := n.Fun.(*ast.SelectorExpr); ok {
+				if idn, ok := sel.X.(*ast.Ident); ok && x.external[idn.Name] {
+					x.walkExprField(&n.Fun)
+					for i := range n.Args {
+						if _, isLit := n.Args[i].(*ast.FuncLit); isLit {
+							x.quiet++
+							x.walkExprField(&n.Args[i])
+							x.quiet--
+						} else {
+							x.walkExprField(&n.Args[i])
+						}
+					}
+					return
+				}
+			}
+			if ix, ok := n.Fun.(*ast.IndexExpr); ok { // generic instantiation: slices.SortFunc[T](...)
+				if sel, ok := ix.X.(*ast.SelectorExpr); ok {
+					if idn, ok := sel.X.(*ast.Ident); ok && x.external[idn.Name] {
+						for i := range n.Args {
+							if _, isLit := n.Args[i].(*ast.FuncLit); isLit {
+								x.quiet++
+								x.walkExprField(&n.Args[i])
+								x.quiet--
+							} else {
+								x.walkExprField(&n.Args[i])
+							}
+						}
+						return
+					}
+				}
+			}
 		case *ast.FuncLit:
 			x.results = append(x.results, n.Type.Results != nil && len(n.Type.Results.List) > 0)
 			n.Body.List = x.list(n.Body.List)
@@ -606,7 +643,18 @@ func processFile(fset *token.FileSet, root, path string) {
 			im.EndPos = 0
 		}
 	}
-	x := &xf{fset: fset, rel: rel}
+	x := &xf{fset: fset, rel: rel, external: map[string]bool{}}
+	for _, im := range f.Imports {
+		p, _ := strconv.Unquote(im.Path.Value)
+		if strings.HasPrefix(p, "github.com/pinealctx/neptune") || strings.HasPrefix(p, "verif.local/") {
+			continue
+		}
+		name := p[strings.LastIndex(p, "/")+1:]
+		if im.Name != nil {
+			name = im.Name.Name
+		}
+		x.external[name] = true
+	}
 	for _, d := range f.Decls {
 		switch fd := d.(type) {
 		case *ast.FuncDecl:
